@@ -30,7 +30,8 @@ def gen_req(rnd, k, n, nconn, profile):
         r.update(eid=ids(), px=rnd.choice([1, 2, 3, 4, 5, 6, 7] if profile.get("nonilpose") else [-1, 1, 2, 3, 4, 5, 6, 7]))
     elif k == "Custom":
         r.update(len=rnd.choice([0, 1, 5, 10239, 10240, 10241, 20000]), dig=n,
-                 to=rnd.choice([[], [], [1], [2], [1, 2], [2, 2, 3], [9], [1, 1, 9, 3]]))
+                 to=rnd.choice([[], [], [1], [2], [1, 2], [2, 2, 3], [9], [1, 1, 9, 3], [2, 3, 2], [1, 2, 1], [3, 1, 2, 3, 1], [2, 1, 2, 1, 9],
+                                [rnd.randint(1, 4) for _ in range(rnd.randint(1, 6))]]))
     elif k in ("TypeAdd", "GetId"):
         r["name"] = rnd.choice(["", "a", "a", "b", "b", "c"])
     elif k in ("GetName", "CompList", "Sub", "Unsub"):
